@@ -210,7 +210,7 @@ type C18Module struct {
 func GenC18Module() *rapid.Generator[C18Module] {
 	return rapid.Custom(func(t *rapid.T) C18Module {
 		c := C18Module{Type: rapid.IntRange(21, 23).Draw(t, "type")}
-		n := rapid.IntRange(1, 8).Draw(t, "n")
+		n := rapid.OneOf(rapid.IntRange(1, 8), rapid.IntRange(1, 8), rapid.IntRange(9, 40)).Draw(t, "n")
 		kind := rapid.IntRange(0, 3).Draw(t, "kind")
 		for i := 0; i < n; i++ {
 			var x float64
@@ -266,6 +266,9 @@ func CheckC18Module(c C18Module, rec *Rec) error {
 		return fmt.Errorf("scalar activation with the module type %s returned no error", moduleNames[c.Type])
 	}
 	rec.Class("type:" + moduleNames[c.Type])
+	if len(c.Vec) > 16 {
+		rec.Class("more than 16 inputs")
+	}
 	allBelow, allAbove := true, true
 	for _, v := range c.Vec {
 		allBelow = allBelow && v < -9.3e18
@@ -420,7 +423,21 @@ func CheckC18Calls(c C18Calls, rec *Rec) error {
 		where := fmt.Sprintf("call %d of %v", i, c.Calls)
 		if call.Other {
 			if !scalar && !module { // a code the shared table does not know: registered on the private factory only
-				other.Register(typ, func(x float64, _ []float64) float64 { return x + 1 }, fmt.Sprintf("Custom%d", call.Code))
+				name := fmt.Sprintf("Custom%d", call.Code)
+				// the private factory is asked first (any lookup), then extended, then asked for the new entry: a
+				// registration takes effect whatever was asked before
+				_, _ = other.ActivationTypeFromName("SigmoidPlainActivation")
+				_, _ = other.ActivationNameFromType(typ)
+				other.Register(typ, func(x float64, _ []float64) float64 { return x + 1 }, name)
+				if t2, err := other.ActivationTypeFromName(name); err != nil || t2 != typ {
+					return fmt.Errorf("%s: after registering %q under code %d on a private factory, its name maps to (%d, %v)", where, name, call.Code, t2, err)
+				}
+				if n2, err := other.ActivationNameFromType(typ); err != nil || n2 != name {
+					return fmt.Errorf("%s: after registering %q under code %d on a private factory, the code maps to (%q, %v)", where, name, call.Code, n2, err)
+				}
+				if v, err := other.ActivateByType(call.X, nil, typ); err != nil || v != call.X+1 {
+					return fmt.Errorf("%s: the activator registered under code %d on a private factory returns (%v, %v) for %v", where, call.Code, v, err, call.X)
+				}
 				rec.Class("custom activator registered on another factory")
 			}
 			continue
